@@ -9,13 +9,13 @@
 // step additionally carries the REAL result of entering that step first on a fresh store with the
 // same Ingress and class ("fresh").
 //
-// The domain is the union of two exhaustive products:
+// The domain is the union of exhaustive products:
 //
-//	part "seq"   few Ingress shapes x {nil, user, user+service-subset annotations} x 4 classes x
-//	             every sequence (length <= 2 quick, <= 3 thorough) over the class's step catalogue
 //	part "shape" every Ingress of 1..2 (quick) / 1..3 (thorough) rules drawn from 8 rule variants
-//	             (stable / other / resource backends, hostless rule, rule without http section)
-//	             x {nil, user annotations} x 4 classes x a few short sequences
+//	             (stable / other / resource backends, hostless rule, rule without http section) x
+//	             {nil, user annotations} x 4 classes x a few short sequences
+//	part "seq"   one mixed Ingress x 4 classes x {nil, user, user+service-subset annotations} x every
+//	             sequence of length <= 2 (quick) / <= 3 (thorough) over the class's step catalogue
 package main
 
 import (
@@ -548,49 +548,60 @@ func main() {
 		})
 	}
 
-	// part "seq": every step sequence on a few Ingress shapes
-	maxLen := 2
-	seqShapes := [][]int{{1}}
-	if thorough {
-		maxLen = 3
-		seqShapes = [][]int{{1}, {4, 3}}
-	}
-	for n := 1; n <= maxLen; n++ {
-		for _, annKind := range []string{"user", "none", "subset"} {
-			for _, cls := range classes {
-				for _, sh := range seqShapes {
-					for _, ids := range seqs(kindsOf(cls), n) {
-						one("seq", sh, annKind, cls, ids)
-					}
-				}
-			}
-		}
-	}
-	nSeq := 0
-	for n := 1; n <= maxLen; n++ {
-		nSeq += len(seqs(kindsOf("nginx"), n))
-	}
-
-	// part "shape": every Ingress shape with a few short sequences
-	maxRules := 2
-	if thorough {
-		maxRules = 3
-	}
+	// part "shape": every Ingress shape with both annotation kinds, every class and a few short sequences;
+	// shapes of 3 rules in the thorough tier only.
 	shortSeqs := [][]string{{"w20"}, {"hx", "w100"}, {"ck"}}
-	all := shapes(maxRules)
+	all := shapes(2)
 	for _, sh := range all {
 		for _, annKind := range []string{"user", "none"} {
 			for _, cls := range classes {
-				ss := shortSeqs
-				if cls == "mse" {
-					ss = append(append([][]string{}, shortSeqs...), []string{"hq"})
-				}
-				for _, ids := range ss {
+				for _, ids := range shortSeqs {
 					one("shape", sh, annKind, cls, ids)
 				}
 			}
 		}
 	}
-	w.Close(true, map[string]interface{}{"maxSeqLen": maxLen, "seqShapes": len(seqShapes), "seqsPerCommonClass": nSeq,
-		"maxRules": maxRules, "shapes": len(all), "ruleVariants": len(ruleVariants), "classes": classes})
+	maxRules := 2
+	if thorough {
+		maxRules = 3
+		for _, sh := range shapes(3) {
+			if len(sh) < 3 {
+				continue
+			}
+			all = append(all, sh)
+			for _, annKind := range []string{"user", "none"} {
+				for _, cls := range classes {
+					for _, ids := range shortSeqs[:2] {
+						one("shape", sh, annKind, cls, ids)
+					}
+				}
+			}
+		}
+	}
+
+	// part "seq": every step sequence over the class's catalogue on one mixed Ingress; the mse class first
+	// (it has the largest catalogue).
+	maxLen := 2
+	if thorough {
+		maxLen = 3
+	}
+	seqShape := []int{1}
+	nSeq := 0
+	for n := 1; n <= maxLen; n++ {
+		nSeq += len(seqs(kindsOf("nginx"), n))
+		for _, cls := range []string{"mse", "nginx", "aliyun-alb", "higress"} {
+			for _, annKind := range []string{"user", "subset", "none"} {
+				for _, ids := range seqs(kindsOf(cls), n) {
+					one("seq", seqShape, annKind, cls, ids)
+				}
+			}
+		}
+	}
+	w.Close(true, map[string]interface{}{"maxSeqLen": maxLen, "seqsPerCommonClass": nSeq, "seqsMse": func() int {
+		k := 0
+		for n := 1; n <= maxLen; n++ {
+			k += len(seqs(kindsOf("mse"), n))
+		}
+		return k
+	}(), "maxRules": maxRules, "shapes": len(all), "ruleVariants": len(ruleVariants), "classes": classes})
 }
